@@ -9,6 +9,8 @@ import Proofs.MarkEffect
 import Proofs.MarkPlan
 import PM.TypePlan
 import Props.C14
+import PM.KeptChildren
+import Proofs.TypePlan
 namespace PM.C13
 open PM
 
@@ -488,5 +490,407 @@ theorem nodePlanners_local (S : Schema) (tr tr' : Tr) (pos : Nat)
         · rename_i found _
           exact key _ (.inr (.inl ⟨found, rfl⟩)) h
   · exact key _ (.inr (.inr ⟨n, v, rfl⟩)) h
+
+/-! ## whole-operation theorems: `clear_incompatible`, `set_node_markup`, `set_block_type`
+
+"Changing block type or node markup keeps the children (minus content the new type cannot hold)".
+Helper lemmas: Proofs/TypePlan.lean; the specification functions `keptChildren`, `retypeFill`,
+`retypedChildren`: PM/KeptChildren.lean (tied to the real `set_block_type` by the `keptChildren`
+request of harness/props/c13.py).
+
+The three operations reach `Transform.replace` (→ `replace_step` → `Fitter`) in two places: the
+filler insertion of `clear_incompatible` and the leaf case of `set_node_markup`.  The model replays
+the Fitter's answers from `PSt.fits`; the theorems below are about runs in which the Fitter was not
+needed (`st.fits = []`: every such replace has nothing to do or fits trivially — a run that would
+need it fails with `.internal` under this hypothesis). -/
+
+/-- **`Transform.clear_incompatible(pos, parent_type, match)`**, token level.  If the operation
+    succeeds (without the Fitter), then for the node found at `pos`, if it is a node with content:
+    it occupies the window `[pos, pos + size)`, and afterwards the document is the same token list
+    with that node's children replaced by `retypedChildren` = `keptChildren ++ retypeFill`: the
+    left-to-right filter by the automaton of `parent_type` (from state `q0`), every kept child
+    stripped of the marks `parent_type` does not allow, newlines in kept text replaced by a space
+    unless `parent_type` is a code type, then the fillers when the walk does not end in a valid end
+    state.  The node's own open token, its close token and every token outside the node are
+    unchanged. -/
+theorem clearIncompatible_spec (S : Schema) (st st' : PSt) (pos : Nat) (pty : TypeId) (q0 : Nat)
+    (hfit : st.fits = []) (h : st.clearIncompatible S pos pty q0 = .ok st') :
+    ∃ node, st.tr.doc.nodeAt pos = .ok (some node) ∧
+      (node.isLeaf = false →
+        let L := ftoks st.tr.doc.kids
+        (L.drop pos).take node.size = node.headTok :: (ftoks node.kids ++ [Tok.cl]) ∧
+        ftoks st'.tr.doc.kids = L.take pos ++
+          node.headTok :: (ftoks (retypedChildren S pty node.kids q0) ++ Tok.cl :: L.drop (pos + node.size))) := by
+  obtain ⟨node, hnode, _, _, _, _, htoks⟩ := clearIncompatible_effect S st st' pos pty q0 hfit h
+  refine ⟨node, hnode, fun hnl => ⟨?_, htoks hnl⟩⟩
+  cases node with
+  | text => simp [Node.isLeaf] at hnl
+  | leaf => simp [Node.isLeaf] at hnl
+  | elem t a m kids =>
+    obtain ⟨hL, hlen⟩ := nodeAt_window st.tr.doc _ pos hnode rfl
+    rw [hL, List.append_assoc, List.drop_left' (by simp; omega)]
+    simp only [Node.headTok, Node.kids]
+    rw [List.take_left' (by rw [Node.toks_length])]
+    simp
+
+/-- the steps `clear_incompatible` records, in the order applied: the `RemoveMarkStep`s of the walk,
+    the filler insertion at the original end of the content, the collected `ReplaceStep`s last to
+    first (`clearPlan`, Proofs/TypePlan.lean) -/
+theorem clearIncompatible_steps (S : Schema) (st st' : PSt) (pos : Nat) (pty : TypeId) (q0 : Nat)
+    (hfit : st.fits = []) (h : st.clearIncompatible S pos pty q0 = .ok st') :
+    ∃ node, st.tr.doc.nodeAt pos = .ok (some node) ∧
+      st'.tr.steps = st.tr.steps ++ clearPlan S pty node.kids q0 (pos + 1) := by
+  obtain ⟨node, hnode, _, hs, _, _, _⟩ := clearIncompatible_effect S st st' pos pty q0 hfit h
+  exact ⟨node, hnode, hs⟩
+
+/-- **`Transform.set_node_markup(pos, type, attrs, marks)`**, token level.  If the operation
+    succeeds (without the Fitter), the node found at `pos` is re-created with the new markup
+    (`newNode = type.create(attrs, None, marks or node.marks)`, type defaulting to the node's), and
+    * for a node with content: the content must be valid for the new type, and the new document is
+      the old token list with the node's open token replaced by the first token of `newNode`, the
+      children kept in place, and the close token replaced by the remaining tokens of `newNode`
+      (`[cl]` for a new type with content: then the result is `L.set pos newOpen`);
+    * for a leaf (or text) node: the node's tokens are replaced by those of `newNode`.
+    Every other token is unchanged. -/
+theorem setNodeMarkup_spec (S : Schema) (st st' : PSt) (pos : Nat) (ty : Option TypeId)
+    (attrs : Attrs) (marks : Option Marks) (hfit : st.fits = [])
+    (h : st.setNodeMarkup S pos ty attrs marks = .ok st') :
+    ∃ node newNode, st.tr.doc.nodeAt pos = .ok (some node) ∧
+      S.createNode (ty.getD (S.tyOf node)) attrs
+        (match marks with | some (m :: r) => m :: r | _ => node.marks) = .ok newNode ∧
+      let L := ftoks st.tr.doc.kids
+      (node.isLeaf = false →
+        S.validContent (ty.getD (S.tyOf node)) node.kids = true ∧
+        ftoks st'.tr.doc.kids = L.take pos ++ newNode.toks.take 1 ++ ftoks node.kids ++
+          newNode.toks.drop 1 ++ L.drop (pos + node.size) ∧
+        ((S.nodeType (ty.getD (S.tyOf node))).isLeaf = false →
+          L[pos]? = some node.headTok ∧ ftoks st'.tr.doc.kids = L.set pos newNode.headTok)) ∧
+      (node.isLeaf = true →
+        ftoks st'.tr.doc.kids = L.take pos ++ newNode.toks ++ L.drop (pos + node.size)) := by
+  unfold PSt.setNodeMarkup at h
+  split at h
+  · simp at h
+  · simp at h
+  · rename_i node hnode
+    simp only at h
+    split at h
+    · simp at h
+    · rename_i newNode hcreate
+      refine ⟨node, newNode, hnode, hcreate, ?_⟩
+      have hnt : newNode.isText = false := by
+        unfold Schema.createNode at hcreate
+        simp only at hcreate
+        split at hcreate
+        · simp at hcreate
+        · cases hc : computeAttrs (S.nodeType (ty.getD (S.tyOf node))).attrs attrs with
+          | error e => rw [hc] at hcreate; simp [Except.map] at hcreate
+          | ok a =>
+            rw [hc] at hcreate
+            simp only [Except.map, Except.ok.injEq] at hcreate
+            subst hcreate
+            split <;> rfl
+      intro L
+      constructor
+      · intro hnl
+        rw [if_neg (by simp [hnl])] at h
+        split at h
+        · simp at h
+        · rename_i hvalid
+          obtain ⟨ha, _⟩ := PSt.step_spec S st st' _ h
+          cases node with
+          | text => simp [Node.isLeaf] at hnl
+          | leaf => simp [Node.isLeaf] at hnl
+          | elem t a m kids =>
+            obtain ⟨hL, hlen⟩ := nodeAt_window st.tr.doc _ pos hnode rfl
+            obtain ⟨e1, _⟩ := retypeStep_toks S st.tr.doc st'.tr.doc pos (pos + (Node.elem t a m kids).size)
+              newNode hnt (by simp only [Node.size_elem]; omega) ha
+            have hgap : ((ftoks st.tr.doc.kids).drop (pos + 1)).take
+                (pos + (Node.elem t a m kids).size - pos - 2) = ftoks kids := by
+              conv => lhs; rw [hL]
+              have : ((ftoks st.tr.doc.kids).take pos ++ [Tok.op t a m]).length = pos + 1 := by
+                simp only [Node.size_elem] at hlen
+                simp; omega
+              rw [show (ftoks st.tr.doc.kids).take pos ++ (Node.elem t a m kids).toks ++
+                  (ftoks st.tr.doc.kids).drop (pos + (Node.elem t a m kids).size) =
+                  ((ftoks st.tr.doc.kids).take pos ++ [Tok.op t a m]) ++ (ftoks kids ++ (Tok.cl ::
+                    (ftoks st.tr.doc.kids).drop (pos + (Node.elem t a m kids).size))) by simp,
+                List.drop_left' this]
+              exact List.take_left' (by simp only [Node.size_elem, ftoks_length]; omega)
+            rw [hgap] at e1
+            refine ⟨by simpa using hvalid, e1, fun hty => ?_⟩
+            obtain ⟨a', rfl⟩ := createNode_elem S _ attrs _ newNode hty hcreate
+            have hget : L[pos]? = some (Tok.op t a m) := by
+              show (ftoks st.tr.doc.kids)[pos]? = _
+              rw [hL, List.append_assoc, List.getElem?_append_right (by simp <;> omega)]
+              simp only [Node.size_elem] at hlen
+              simp [Nat.min_eq_left (by omega : pos ≤ (ftoks st.tr.doc.kids).length)]
+            refine ⟨hget, ?_⟩
+            have hpl : pos < (ftoks st.tr.doc.kids).length := by
+              simp only [Node.size_elem] at hlen; omega
+            have hd1 : (ftoks st.tr.doc.kids).drop (pos + 1) =
+                ftoks kids ++ Tok.cl :: (ftoks st.tr.doc.kids).drop (pos + (Node.elem t a m kids).size) := by
+              conv => lhs; rw [hL]
+              rw [show (ftoks st.tr.doc.kids).take pos ++ (Node.elem t a m kids).toks ++
+                  (ftoks st.tr.doc.kids).drop (pos + (Node.elem t a m kids).size) =
+                  ((ftoks st.tr.doc.kids).take pos ++ [Tok.op t a m]) ++ (ftoks kids ++ (Tok.cl ::
+                    (ftoks st.tr.doc.kids).drop (pos + (Node.elem t a m kids).size))) by simp]
+              exact List.drop_left' (by simp; omega)
+            show _ = (ftoks st.tr.doc.kids).set pos _
+            rw [e1, List.set_eq_take_append_cons_drop, if_pos hpl, hd1]
+            simp [Node.headTok]
+      · intro hl
+        rw [if_pos (by simp [hl])] at h
+        rcases PSt.replace_nofit S st st' _ _ _ hfit h with ⟨_, he, _⟩ | ⟨_, hstep⟩
+        · exfalso
+          cases node with
+          | text s ms =>
+            -- `node_at` never returns an empty text node of a normal document, but the model allows it:
+            -- then `pos + 0 = pos` and the slice `[newNode]` is not empty
+            simp only [Node.size] at he
+            rename_i hz
+            cases newNode with
+            | text => simp [Node.isText] at hnt
+            | leaf => simp [Slice.size, Node.size] at hz
+            | elem => simp [Slice.size, Node.size] at hz; omega
+          | leaf => simp [Node.size] at he
+          | elem => simp [Node.isLeaf] at hl
+        · obtain ⟨ha, _⟩ := PSt.step_spec S st st' _ hstep
+          obtain ⟨e1, _⟩ := apply_replace_toks S _ _ _ _ _ _ ha
+          rw [e1, Slice.toks_closed]
+          simp [L]
+
+/-- **`Transform.set_block_type(from, to, type, attrs)`** — the whole walk.  For a document in
+    normal form (no empty text node, no two adjacent text nodes with equal marks: every document the
+    library builds), whose visited textblocks are nodes with content, and a run that did not need the
+    Fitter: the final token list is `X' ++ L.drop skip'` where `(skip', X')` is what the relation
+    `SbtRun` (Proofs/TypePlan.lean) derives from the visits of `nodes_between(from, to)` over the
+    *original* token list `L`, starting from `(0, [])`:
+    every visited textblock that lies outside the blocks converted before it, does not have the
+    requested markup and passes `can_change_type` (asked on the current document at the block's
+    current position) is replaced by `create(attrs, None, node.marks)` around
+    `retypedChildren type children` = `keptChildren ++ fill`; the tokens between converted blocks
+    and behind the last one are copied unchanged.
+
+    Inside the proof: the positions `mapping.slice(map_from).map(pos, 1)` the code computes are the
+    positions of the block in the current document (`SbtInv.maps`; the maps of the remove-mark
+    steps are empty, the filler insertion and the deletions lie strictly inside the block, the
+    replace-around step of an earlier block lies before), `node_at` there finds the visited node
+    itself, and the mapped end is `start + 2 + size of the new children` — so `start + 2 ≤ end`
+    (hypothesis of `setBlockType_keeps_children`) always holds. -/
+theorem setBlockType_spec (S : Schema) (st st' : PSt) (f t : Nat) (ty : TypeId) (attrs : Attrs)
+    (hfit : st.fits = []) (hms : st.tr.maps.length = st.tr.steps.length)
+    (hnorm : fnorm st.tr.doc.kids = true)
+    (hty : (S.nodeType ty).isLeaf = false)
+    (hblocks : ∀ v ∈ S.docVisits st.tr.doc f t, S.isTextblockN v.node = true → v.node.isLeaf = false)
+    (h : st.setBlockType S f t ty attrs = .ok st') :
+    ∃ skip' X', SbtRun S ty attrs (ftoks st.tr.doc.kids) (S.docVisits st.tr.doc f t) 0 [] skip' X' ∧
+      ftoks st'.tr.doc.kids = X' ++ (ftoks st.tr.doc.kids).drop skip' ∧ st'.fits = [] := by
+  unfold PSt.setBlockType at h
+  simp only at h
+  split at h
+  · simp at h
+  · split at h
+    · simp at h
+    · rename_i st2 skip2 hfold
+      split at h
+      · simp at h
+      · simp only [Except.ok.injEq] at h
+        subst h
+        have hI : SbtInv (ftoks st.tr.doc.kids) st.tr.steps.length st 0 [] :=
+          { toks := by simp
+            maps := by
+              intro p _
+              rw [List.drop_of_length_le (by omega)]
+              simp
+            fits := hfit
+            mf_le := by omega
+            skip_le := Nat.zero_le _
+            norm := hnorm }
+        obtain ⟨X', hr, hI'⟩ := sbt_fold S ty attrs st.tr.steps.length (ftoks st.tr.doc.kids) hty
+          (S.docVisits st.tr.doc f t) st 0 [] st2 skip2
+          (fun v hv => by
+            obtain ⟨h1, h2⟩ := docVisits_window S st.tr.doc f t v hv
+            exact ⟨h1, h2 hnorm, hblocks v hv⟩)
+          hI hfold
+        exact ⟨skip2, X', hr, hI'.toks, hI'.fits⟩
+
+/-- **one visit of the `set_block_type` callback with the position bookkeeping made explicit**
+    (strengthens `setBlockType_keeps_children`: nothing is assumed about the mapped positions).
+    In a state related to the original token list `L0` by `SbtInv` (everything from `skip` on
+    untouched behind the rewritten prefix `X`; true initially with `skip = 0`, `X = []`, and kept by
+    every visit), for a visited node `v` at or after `skip` that occupies its window of `L0`:
+    either the visit changes nothing, or
+    * `mapping.slice(map_from).map(v.pos, 1)` is the block's position `s` in the current document,
+      before and after `clear_incompatible`, and `node_at(s)` is the visited node itself;
+    * the mapped end is `e = s + 2 + size of the new children`, hence `s + 2 ≤ e`;
+    * the block is replaced by the new node around `retypedChildren` and the relation to `L0` holds
+      again with `skip = v.pos + v.node.size`. -/
+theorem setBlockType_visit_spec (S : Schema) (ty : TypeId) (attrs : Attrs) (mf : Nat) (L0 : List Tok)
+    (hty : (S.nodeType ty).isLeaf = false) (st st2 : PSt) (skip skip2 : Nat) (X : List Tok) (v : NV)
+    (hI : SbtInv L0 mf st skip X) (hsk : skip ≤ v.pos)
+    (hw : (L0.drop v.pos).take v.node.size = v.node.toks) (hvn : v.node.norm = true)
+    (hnl : v.node.isLeaf = false)
+    (h : setBlockTypeVisit S ty attrs mf (.ok (st, skip)) v = .ok (st2, skip2)) :
+    (st2 = st ∧ skip2 = skip) ∨
+    ∃ st1 nn,
+      st.clearIncompatible S (st.mapFrom mf v.pos 1) ty = .ok st1 ∧
+      S.createNode ty attrs v.node.marks = .ok nn ∧
+      skip2 = v.pos + v.node.size ∧
+      st.mapFrom mf v.pos 1 = X.length + (v.pos - skip) ∧
+      st.tr.doc.nodeAt (X.length + (v.pos - skip)) = .ok (some v.node) ∧
+      st1.mapFrom mf v.pos 1 = X.length + (v.pos - skip) ∧
+      st1.mapFrom mf (v.pos + v.node.size) 1 =
+        X.length + (v.pos - skip) + 2 + fsize (retypedChildren S ty v.node.kids) ∧
+      st1.mapFrom mf v.pos 1 + 2 ≤ st1.mapFrom mf (v.pos + v.node.size) 1 ∧
+      SbtInv L0 mf st2 skip2 (X ++ (L0.drop skip).take (v.pos - skip) ++ convToks S ty nn v.node.kids) := by
+  unfold setBlockTypeVisit at h
+  simp only at h
+  split at h
+  · simp only [Except.ok.injEq, Prod.mk.injEq] at h
+    exact .inl ⟨h.1.symm, h.2.symm⟩
+  · split at h
+    · simp only [Except.ok.injEq, Prod.mk.injEq] at h
+      exact .inl ⟨h.1.symm, h.2.symm⟩
+    · split at h
+      · simp at h
+      · simp only [Except.ok.injEq, Prod.mk.injEq] at h
+        exact .inl ⟨h.1.symm, h.2.symm⟩
+      · split at h
+        · simp at h
+        · rename_i st1 hclear
+          split at h
+          · simp at h
+          · rename_i nn hnn
+            cases hs : st1.step S (retypeStep (st1.mapFrom mf v.pos 1)
+                (st1.mapFrom mf (v.pos + v.node.size) 1) nn) with
+            | error e => rw [hs] at h; simp [Except.map] at h
+            | ok st2' =>
+              rw [hs] at h
+              simp only [Except.map, Except.ok.injEq, Prod.mk.injEq] at h
+              obtain ⟨rfl, rfl⟩ := h
+              obtain ⟨p1, p2, p3, p4, hI2⟩ := sbtVisit_conv S ty attrs mf L0 hty st st1 st2' skip X v nn
+                hI hsk hw hvn hnl hclear hnn hs
+              exact .inr ⟨st1, nn, hclear, hnn, rfl, p1, p2, p3, p4, by rw [p3, p4]; omega, hI2⟩
+
+/-- reading `SbtRun`: the run only ever appends to the rewritten prefix and moves `skip` forward -/
+theorem SbtRun.grows {S : Schema} {ty : TypeId} {attrs : Attrs} {L0 : List Tok} {vs : List NV}
+    {skip skip' : Nat} {X X' : List Tok} (h : SbtRun S ty attrs L0 vs skip X skip' X') :
+    skip ≤ skip' ∧ ∃ Y, X' = X ++ Y := by
+  induction h with
+  | done => exact ⟨Nat.le_refl _, [], by simp⟩
+  | pass _ _ _ _ _ _ _ _ ih => exact ih
+  | conv v _ sk _ _ _ nn hsk _ _ _ _ _ ih =>
+    obtain ⟨h1, Y, hY⟩ := ih
+    exact ⟨by omega, (L0.drop sk).take (v.pos - sk) ++ (convToks S ty nn v.node.kids ++ Y),
+      by rw [hY]; simp only [List.append_assoc]⟩
+
+/-- reading `SbtRun`: when no visited node is a textblock lacking the requested markup, nothing
+    changes -/
+theorem SbtRun.none {S : Schema} {ty : TypeId} {attrs : Attrs} {L0 : List Tok} {vs : List NV}
+    {skip skip' : Nat} {X X' : List Tok} (h : SbtRun S ty attrs L0 vs skip X skip' X')
+    (hn : ∀ v ∈ vs, S.isTextblockN v.node = false ∨ S.hasMarkup v.node ty attrs = true) :
+    skip' = skip ∧ X' = X := by
+  induction h with
+  | done => exact ⟨rfl, rfl⟩
+  | pass v vs _ _ _ _ _ _ ih => exact ih (fun w hw => hn w (by simp [hw]))
+  | conv v vs _ _ _ _ _ _ htb hmk _ _ _ _ =>
+    rcases hn v (by simp) with h | h
+    · rw [h] at htb; simp at htb
+    · rw [h] at hmk; simp at hmk
+
+/-- reading `SbtRun` for a single convertible block: the visits are the block `v` followed by
+    visits inside it — the result is the original tokens with the block's window replaced -/
+theorem SbtRun.single {S : Schema} {ty : TypeId} {attrs : Attrs} {L0 : List Tok} {v : NV} {vs : List NV}
+    {skip' : Nat} {X' : List Tok} (h : SbtRun S ty attrs L0 (v :: vs) 0 [] skip' X')
+    (hin : ∀ w ∈ vs, w.pos < v.pos + v.node.size)
+    (hconv : ∀ doc, ftoks doc.kids = L0 → canChangeTypeR S doc v.pos ty = .ok true)
+    (htb : S.isTextblockN v.node = true) (hmk : S.hasMarkup v.node ty attrs = false) :
+    ∃ nn, S.createNode ty attrs v.node.marks = .ok nn ∧ skip' = v.pos + v.node.size ∧
+      X' = L0.take v.pos ++ convToks S ty nn v.node.kids := by
+  have inner : ∀ (ws : List NV) (sk sk' : Nat) (Y Y' : List Tok), SbtRun S ty attrs L0 ws sk Y sk' Y' →
+      (∀ w ∈ ws, w.pos < sk) → sk' = sk ∧ Y' = Y := by
+    intro ws sk sk' Y Y' hr
+    induction hr with
+    | done => intro _; exact ⟨rfl, rfl⟩
+    | pass w ws _ _ _ _ _ _ ih => intro hw; exact ih (fun x hx => hw x (by simp [hx]))
+    | conv w ws _ _ _ _ _ hsk _ _ _ _ _ _ =>
+      intro hw
+      have := hw w (by simp)
+      omega
+  cases h with
+  | pass _ _ _ _ _ _ hwhy hr =>
+    exfalso
+    rcases hwhy with h | h | h | ⟨doc, hd, hc⟩
+    · omega
+    · rw [h] at htb; simp at htb
+    · rw [h] at hmk; simp at hmk
+    · have := hconv doc (by simpa using hd)
+      simp only [List.length_nil, Nat.zero_add, Nat.sub_zero] at hc
+      rw [this] at hc; simp at hc
+  | conv _ _ _ _ _ _ nn _ _ _ _ hnn hr =>
+    obtain ⟨e1, e2⟩ := inner _ _ _ _ _ hr hin
+    exact ⟨nn, hnn, e1, by rw [e2]; simp⟩
+
+/-! #### not stated / what is missing
+
+* **Runs that consult the Fitter** (`st.fits ≠ []`).  `clear_incompatible` inserts the fillers with
+  `Transform.replace(cur, cur, Slice(fill, 0, 0))`, which asks `fits_trivially` against the *old*
+  parent type; when the fillers do not fit there the code hands over to `Fitter` (C11), whose
+  answer the model replays from `PSt.fits`.  The statement would read: "… then the children are
+  `keptChildren ++ (whatever the recorded step inserted at `cur`)`" (nothing at all when
+  `Fitter.fit()` returns `None`).  Not stated: it needs the token semantics of an arbitrary Fitter
+  answer.  The tie counts these runs (`kept_tie_skipped:fitter_called`, `plan_fitter_calls:*`): in
+  the generated cases almost all of them are direct `clear_incompatible` calls on non-textblock
+  parents, a handful per run come from `set_block_type`.
+* `hblocks` of `setBlockType_spec` (a visited textblock is a node with content) follows from
+  `C01.Valid S doc` plus the schema fact "a type with inline content is not a leaf type"; the model
+  keeps `NodeType.isLeaf` and `NodeType.inlineContent` as independent table entries, so it is a
+  hypothesis here.
+* Normal form (`hnorm`) is needed because `node_at` on a document with an empty text node in front
+  of the block returns that text node: the model's `nodeAtKids` and the code agree on this, real
+  documents never contain one. -/
+
+/-! #### a concrete instance of the hypotheses -/
+
+private def sbExNT (name : String) (text inl leaf inlineContent : Bool) (dfa : Array DfaState)
+    (markSet : Option (List MarkTypeId)) : NodeType :=
+  { name := name, isText := text, isInline := inl, isLeaf := leaf, isAtom := leaf, inlineContent := inlineContent,
+    isolating := false, defining := false, code := false, dfa := dfa, markSet := markSet, attrs := [] }
+
+/-- `doc: block+`, `paragraph: inline*` (all marks), `title: text*` (no marks), `br` (inline leaf),
+    `text`; one mark `em` -/
+private def sbExSchema : Schema :=
+  { nodes := #[sbExNT "doc" false false false false #[⟨false, [(1, 1), (2, 1)]⟩, ⟨true, [(1, 1), (2, 1)]⟩] none,
+      sbExNT "paragraph" false false false true #[⟨true, [(3, 0), (4, 0)]⟩] none,
+      sbExNT "title" false false false true #[⟨true, [(4, 0)]⟩] (some []),
+      sbExNT "br" false true true false #[⟨true, []⟩] none,
+      sbExNT "text" true true true false #[⟨true, []⟩] none],
+    marks := #[{ name := "em", excluded := [0], inclusive := true, attrs := [] }], top := 0, textTy := 4 }
+
+/-- `doc(p(em("a\nb"), br, "c"))` -/
+private def sbExDoc : Node :=
+  .elem 0 [] [] [.elem 1 [] [] [.text [97, 10, 98] [⟨0, []⟩], .leaf 3 [] [], .text [99] []]]
+
+/-- turning the paragraph into a `title`: the `br` is dropped, `em` is stripped, the newline becomes
+    a space (and the three resulting text nodes are one text) -/
+example : fromArray (retypedChildren sbExSchema 2 [.text [97, 10, 98] [⟨0, []⟩], .leaf 3 [] [], .text [99] []]) =
+    [.text [97, 32, 98, 99] []] := by rfl
+/-- the hypotheses of `setBlockType_spec` for `Transform(sbExDoc).set_block_type(0, 7, title)` (the model
+    evaluates the operation to `doc(title("a b c"))`) -/
+example : ({ tr := Tr.init sbExDoc } : PSt).fits = [] ∧
+    ({ tr := Tr.init sbExDoc } : PSt).tr.maps.length = ({ tr := Tr.init sbExDoc } : PSt).tr.steps.length ∧
+    fnorm sbExDoc.kids = true ∧ (sbExSchema.nodeType 2).isLeaf = false := ⟨rfl, rfl, rfl, rfl⟩
+example : ∀ v ∈ sbExSchema.docVisits sbExDoc 0 7,
+    sbExSchema.isTextblockN v.node = true → v.node.isLeaf = false := by
+  intro v hv
+  simp [Schema.docVisits, sbExDoc, Node.kids, nodesBetweenP_cons, nodesBetweenP, Node.size, fsize] at hv
+  rcases hv with rfl | rfl | rfl | rfl <;> simp [Schema.isTextblockN, Node.isLeaf] <;> decide
+
+/-- the newline rule on a small text: `a \r\n b \n` with marks `keep` becomes `a ␠ b ␠`, the
+    spaces carrying the mark set `sp` -/
+example (keep sp : Marks) :
+    nlNodes keep sp [97, 13, 10, 98, 10] =
+      [.text [97] keep, .text [32] sp, .text [98] keep, .text [32] sp] := by
+  simp [nlNodes]
 
 end PM.C13
